@@ -214,6 +214,14 @@ impl MdnsResponse {
     }
 }
 
+#[cfg(libp2p_verif)]
+impl MdnsResponse {
+    /// Verification hook (C55): the peers decoded from the packet.
+    pub(crate) fn verif_peers(&self) -> impl Iterator<Item = &MdnsPeer> {
+        self.discovered_peers()
+    }
+}
+
 impl fmt::Debug for MdnsResponse {
     fn fmt(&self, f: &mut fmt::Formatter<'_>) -> fmt::Result {
         f.debug_struct("MdnsResponse")
